@@ -56,6 +56,8 @@ type Sim struct {
 	Dir    string
 	Status map[*refchain.Block]Status
 	Manual map[*refchain.Block]bool // manually invalidated
+	// HdrAlso: blocks sitting in the orphan pool whose header has additionally entered the block index
+	HdrAlso map[*refchain.Block]bool
 	Tip    *refchain.Block          // expected active tip
 	// AmbiguousTip: after an operation the property allows any of several equal-work tips.
 	orphanOrder []*refchain.Block // arrival order of orphans
@@ -72,6 +74,8 @@ type Sim struct {
 	// LenientInvalidate: tolerate (and count, under a distinct key) the documented InvalidateBlock/ReconsiderBlock defects.
 	everActive map[*refchain.Block]int // order in which blocks first became active tip
 	activeSeq  int
+	// Connected: blocks that have been part of the active chain at some point (fully validated).
+	Connected map[*refchain.Block]bool
 }
 
 // New opens a fresh node in a new temp dir.
@@ -90,8 +94,9 @@ func New(k *mon.Case, g *chaingen.Gen, cfg node.Config) (*Sim, error) {
 		os.RemoveAll(dir)
 		return nil, err
 	}
-	s := &Sim{K: k, G: g, N: n, Cfg: cfg, Dir: dir, Status: map[*refchain.Block]Status{}, Manual: map[*refchain.Block]bool{},
-		universe: map[wire.OutPoint]bool{}, everActive: map[*refchain.Block]int{}}
+	s := &Sim{K: k, G: g, N: n, Cfg: cfg, Dir: dir, Status: map[*refchain.Block]Status{}, Manual: map[*refchain.Block]bool{}, HdrAlso: map[*refchain.Block]bool{},
+		universe: map[wire.OutPoint]bool{}, everActive: map[*refchain.Block]int{}, Connected: map[*refchain.Block]bool{}}
+	s.Connected[g.Tree.Genesis] = true
 	s.Status[g.Tree.Genesis] = SStored
 	s.Tip = g.Tree.Genesis
 	s.stack = []*refchain.Block{g.Tree.Genesis}
@@ -147,6 +152,12 @@ func workUnits(b *refchain.Block) int64 {
 	// cumulative work in units of the minimum-difficulty block (for display only)
 	u := new(big.Int).Div(b.CumWork, big.NewInt(2))
 	return u.Int64()
+}
+
+// InIndex reports whether the node's block index has an entry for b (with or without data).
+func (s *Sim) InIndex(b *refchain.Block) bool {
+	st := s.Status[b]
+	return st == SStored || st == SHeader || s.HdrAlso[b]
 }
 
 // Eligible: stored, valid, not manually invalidated, and so are all ancestors.
@@ -239,6 +250,9 @@ func (s *Sim) settleTip(what string) {
 		}
 	}
 	s.Tip = want
+	for n := want; n != nil && !s.Connected[n]; n = n.Parent {
+		s.Connected[n] = true
+	}
 	if _, ok := s.everActive[want]; !ok {
 		s.activeSeq++
 		s.everActive[want] = s.activeSeq
@@ -299,6 +313,9 @@ func (s *Sim) DeliverBlock(b *refchain.Block) {
 		}
 		s.K.Count("deliver.orphan", 1)
 	default:
+		if b.Label == refchain.InvalidConnect && b.Parent == s.Tip && err == nil {
+			s.Fail("process:accepted-invalid:"+b.Rule, "block %s violating %s extends the tip and ProcessBlock returned no error (main=%v)", b.Name, b.Rule, isMain)
+		}
 		s.acceptWithParent(b, isMain, isOrphan, err, true)
 	}
 	s.AfterOp("ProcessBlock(" + b.Name + ")")
@@ -418,10 +435,9 @@ func (s *Sim) DeliverHeader(b *refchain.Block) {
 	s.op("hdr(%s)", b.Name)
 	_, err := s.N.Chain.ProcessBlockHeader(&b.Msg.Header, blockchain.BFNone, false)
 	s.K.Count("op.ProcessBlockHeader", 1)
-	pst := s.Status[b.Parent]
 	rc := ruleClass(b)
 	switch {
-	case pst != SStored && pst != SHeader:
+	case !s.InIndex(b.Parent):
 		if err == nil {
 			s.Fail("header:unknown-parent-accepted", "header %s accepted although parent %s is not in the index", b.Name, b.Parent.Name)
 		}
@@ -433,17 +449,19 @@ func (s *Sim) DeliverHeader(b *refchain.Block) {
 		// may be refused (known invalid ancestor) or accepted, depending on what the node knows
 		if err == nil && s.Status[b] == SUnknown {
 			s.Status[b] = SHeader
+		} else if err == nil && s.Status[b] == SOrphan {
+			s.HdrAlso[b] = true
 		}
 	default:
 		if err != nil {
 			if !(b.Label == refchain.InvalidConnect && s.Status[b] == SStored) {
 				s.Fail("header:valid-refused", "header %s refused: %v", b.Name, err)
 			}
-		} else if s.Status[b] == SUnknown || s.Status[b] == SOrphan {
-			if s.Status[b] == SUnknown {
-				s.Status[b] = SHeader
-			}
+		} else if s.Status[b] == SUnknown {
+			s.Status[b] = SHeader
+		} else if s.Status[b] == SOrphan {
 			// a block in the orphan pool whose header now enters the index stays an orphan until its parent data arrives
+			s.HdrAlso[b] = true
 		}
 		s.K.Count("deliver.header_ok", 1)
 	}
@@ -455,8 +473,7 @@ func (s *Sim) Invalidate(b *refchain.Block) {
 	s.op("inv(%s)", b.Name)
 	err := s.N.Chain.InvalidateBlock(&b.Hash)
 	s.K.Count("op.InvalidateBlock", 1)
-	st := s.Status[b]
-	if st != SStored && st != SHeader {
+	if !s.InIndex(b) {
 		if err == nil {
 			s.Fail("invalidate:unknown-block-ok", "InvalidateBlock(%s) on a block not in the index returned nil", b.Name)
 		}
@@ -476,8 +493,7 @@ func (s *Sim) Reconsider(b *refchain.Block) {
 	s.op("rec(%s)", b.Name)
 	err := s.N.Chain.ReconsiderBlock(&b.Hash)
 	s.K.Count("op.ReconsiderBlock", 1)
-	st := s.Status[b]
-	if st != SStored && st != SHeader {
+	if !s.InIndex(b) {
 		if err == nil {
 			s.Fail("reconsider:unknown-block-ok", "ReconsiderBlock(%s) on a block not in the index returned nil", b.Name)
 		}
@@ -527,6 +543,7 @@ func (s *Sim) Restart(flush bool) {
 			delete(s.Manual, b)
 		}
 	}
+	s.HdrAlso = map[*refchain.Block]bool{}
 	s.orphanOrder = nil
 	s.stack = nil // notifications restart from the persisted tip
 	s.K.Count("op.Restart", 1)
@@ -715,7 +732,7 @@ func (s *Sim) checkViews(op string) {
 			if b == t {
 				break
 			}
-			if st := s.Status[ch]; st == SStored || st == SHeader {
+			if s.InIndex(ch) {
 				s.Fail("views:ChainTips-not-leaf", "ChainTips lists %s which has indexed child %s", b.Name, ch.Name)
 			}
 		}
@@ -729,13 +746,12 @@ func (s *Sim) checkViews(op string) {
 		listed[ct.BlockHash] = true
 	}
 	for _, b := range s.G.Tree.All {
-		st := s.Status[b]
-		if st != SStored && st != SHeader {
+		if !s.InIndex(b) {
 			continue
 		}
 		leaf := true
 		for _, ch := range b.Children {
-			if cs := s.Status[ch]; cs == SStored || cs == SHeader {
+			if s.InIndex(ch) {
 				leaf = false
 			}
 		}
